@@ -10,6 +10,7 @@ LEVELS = {
     "C13": "other",
     "C18": "other",
     "C19": "other",
+    "C03": "proof",
 }
 EXPLAIN = {}
 TRUSTED = [
